@@ -42,6 +42,10 @@ type c09case struct {
 }
 
 func c09Build() (*c09world, error) {
+	// every world starts from the package-level state of a fresh process (cold caches and memos).
+	if vrt.Active() {
+		restorePackageState()
+	}
 	files := c08Bundles()["core"]
 	b := soy.NewBundle().AddGlobalsMap(data.Map{"G_ONE": data.Int(1)})
 	for i, f := range files {
@@ -89,12 +93,12 @@ func c09Ops() []c09op {
 			return buf.String() + errClass(err)
 		}},
 		{"compile an independent bundle and render it", func(w *c09world) string {
-			t, err := soy.NewBundle().AddTemplateString("ind.soy", "{namespace ind}\n/** @param x */\n{template .t}\n{msg desc=\"d\"}a{$x}b<b>{$x.y}</b>{/msg}{['k': $x, 'j': 1]}\n{/template}\n").CompileToTofu()
+			t, err := soy.NewBundle().AddTemplateString("ind.soy", "{namespace ind}\n/** @param x */\n{template .t}\n{msg desc=\"d\"}a{$x}b<b>{$x.yZ}</b>{/msg}{['k': $x, 'j': 1]}{let $b}[{$x.yZ}]{/let}{$b}\n{/template}\n").CompileToTofu()
 			if err != nil {
 				return "compile error " + err.Error()
 			}
 			var buf bytes.Buffer
-			err = t.Render(&buf, "ind.t", map[string]interface{}{"x": map[string]interface{}{"y": "v"}})
+			err = t.Render(&buf, "ind.t", map[string]interface{}{"x": map[string]interface{}{"yZ": "v"}})
 			return buf.String() + errClass(err)
 		}},
 	}
@@ -106,6 +110,7 @@ func sharedRoots(w *c09world) []any {
 }
 
 func checkC09(c *Ctx) {
+	snapshotPackageState()
 	ops := c09Ops()
 	// solo reference outputs (fresh world each)
 	solo := make([]string, len(ops))
@@ -131,15 +136,34 @@ func checkC09(c *Ctx) {
 			vrt.Run(vrt.Options{FixedSched: true}, func() { w, _ = c09Build() })
 			d0 := deepDigest(sharedRoots(w)...)
 			steps, changedAt := 0, -1
+			// a change of the shared state is attributed to unsynchronised code only when no
+			// synchronisation operation (lock, unlock, once, pool, atomic: the shims count them)
+			// happened since the previous digest and no lock is held; state changed under
+			// synchronisation is legitimate and is left to the interleaving exploration and the race pass.
+			var ops0 int64
+			syncChanges := 0
+			look := func() {
+				ops, held := vrt.SyncState()
+				d := deepDigest(sharedRoots(w)...)
+				if d != d0 {
+					if ops == ops0 && held == 0 {
+						if changedAt < 0 {
+							changedAt = steps
+						}
+					} else {
+						syncChanges++
+						d0 = d
+					}
+				}
+				ops0 = ops
+			}
 			vrt.Run(vrt.Options{YieldTick: true, OnYield: func(site string) {
 				steps++
-				if changedAt < 0 && steps%3 == 0 && deepDigest(sharedRoots(w)...) != d0 {
-					changedAt = steps
+				if changedAt < 0 && (steps%3 == 0 || site != "tick") {
+					look()
 				}
-			}}, func() { op.run(w) })
-			if changedAt < 0 && deepDigest(sharedRoots(w)...) != d0 {
-				changedAt = steps
-			}
+			}}, func() { op.run(w); look() })
+			c.Count("solo_changes_under_synchronisation", int64(syncChanges))
 			if os.Getenv("VERIF_DEBUG") != "" {
 				fmt.Fprintf(os.Stderr, "%s solo %s steps %d\n", time.Now().Format("15:04:05.000"), op.name, steps)
 			}
@@ -157,128 +181,153 @@ func checkC09(c *Ctx) {
 	nThreads := 2
 	for i := range ops {
 		for j := range ops {
-			if !c.Mine() {
-				continue
-			}
-			idx := []int{i, j}
-			if c.Thorough() {
-				idx = append(idx, (i+j+1)%len(ops))
-				nThreads = 3
-			}
-			// yield granularity: every 8th instrumented point of each thread at preemption bound 1,
-			// every 48th at bound 2 (the schedule space grows with the square of the points).
-			// two passes per scenario: fine granularity at bound 1, coarser at bound 2.
-			bound, mod := 2, 32
-			if c.Thorough() {
-				mod = 24
-			}
-			var names []string
-			for _, k := range idx {
-				names = append(names, ops[k].name)
-			}
-			cs := c09case{Ops: names, Cold: true}
-			if !c.Instr() {
-				// plain build: the same bodies on real goroutines (free-running), outputs compared.
-				for rep := 0; rep < 20; rep++ {
-					w, err := c09Build()
-					if err != nil {
-						break
-					}
-					outs := make([]string, len(idx))
-					var wg sync.WaitGroup
-					for t, k := range idx {
-						wg.Add(1)
-						go func(t, k int) { defer wg.Done(); outs[t] = ops[k].run(w) }(t, k)
-					}
-					wg.Wait()
-					for t, k := range idx {
-						if outs[t] != solo[k] {
-							c.Violate("each concurrent operation produces exactly the bytes it produces alone", "mismatch", "concurrent-output:"+opClass(ops[k].name), cs, clip(solo[k]), clip(outs[t]))
+			for pass := 1; pass <= 2; pass++ {
+				// each pass of each scenario is one exploration divided among all workers.
+				run, owner, shard, nshards := c.MineShared()
+				if !run || (!c.Instr() && (pass == 2 || !owner)) {
+					continue
+				}
+				idx := []int{i, j}
+				if c.Thorough() {
+					idx = append(idx, (i+j+1)%len(ops))
+					nThreads = 3
+				}
+				// yield granularity: every 8th instrumented point of each thread at preemption bound 1,
+				// every 48th at bound 2 (the schedule space grows with the square of the points).
+				// two passes per scenario: fine granularity at bound 1, coarser at bound 2.
+				bound, mod := 2, 32
+				if c.Thorough() {
+					mod = 24
+				}
+				var names []string
+				for _, k := range idx {
+					names = append(names, ops[k].name)
+				}
+				cs := c09case{Ops: names, Cold: true}
+				if !c.Instr() {
+					// plain build: the same bodies on real goroutines (free-running), outputs compared.
+					for rep := 0; rep < 20; rep++ {
+						w, err := c09Build()
+						if err != nil {
+							break
+						}
+						outs := make([]string, len(idx))
+						var wg sync.WaitGroup
+						for t, k := range idx {
+							wg.Add(1)
+							go func(t, k int) { defer wg.Done(); outs[t] = ops[k].run(w) }(t, k)
+						}
+						wg.Wait()
+						for t, k := range idx {
+							if outs[t] != solo[k] {
+								c.Violate("each concurrent operation produces exactly the bytes it produces alone", "mismatch", "concurrent-output:"+opClass(ops[k].name), cs, clip(solo[k]), clip(outs[t]))
+							}
 						}
 					}
+					c.Observe(strings.Join(names, " || ")+" bound 1", "ok")
+					c.Nontrivial()
+					continue
 				}
-				c.Observe(strings.Join(names, " || "), "ok")
-				c.Nontrivial()
-				continue
-			}
-			var w *c09world
-			outs := make([]string, len(idx))
-			body := func() {
-				done := make(chan int)
-				for t, k := range idx {
-					t, k := t, k
-					vrt.Go(func() {
-						outs[t] = ops[k].run(w)
-						vrt.Send(done, t)
-					})
-				}
-				for range idx {
-					vrt.Recv(done)
-				}
-			}
-			setup := func() { vrt.Run(vrt.Options{FixedSched: true}, func() { w, _ = c09Build() }) }
-			checkOut := func(v vrt.Verdict, prefix []int) {
-				cs.Schedule = prefix
-				if v.Panic != nil || v.Deadlock || v.Exhausted {
-					c.Violate("concurrent operations return", "panic", "panic:"+opClass(names[0])+"||"+opClass(names[1]), cs, "outputs", fmt.Sprint(v.Panic, v.Deadlock, v.Exhausted))
-					return
-				}
-				for t, k := range idx {
-					if outs[t] != solo[k] {
-						c.Violate("each concurrent operation produces exactly the bytes it produces alone", "mismatch", "concurrent-output:"+opClass(ops[k].name)+" with "+opClass(names[(t+1)%len(names)]), cs, clip(solo[k]), clip(outs[t]))
+				var w *c09world
+				outs := make([]string, len(idx))
+				body := func() {
+					done := make(chan int)
+					for t, k := range idx {
+						t, k := t, k
+						vrt.Go(func() {
+							outs[t] = ops[k].run(w)
+							vrt.Send(done, t)
+						})
+					}
+					for range idx {
+						vrt.Recv(done)
 					}
 				}
-			}
-			st1 := exploreWithSetup(vrt.Options{Fuel: 50000000, YieldTick: true, YieldMod: 4}, 1, 300000, setup, body, checkOut)
-			c.Count("schedules", st1.Execs)
-			c.Max("max_schedule_points", int64(st1.MaxPoints))
-			st := exploreWithSetup(vrt.Options{Fuel: 50000000, YieldTick: true, YieldMod: mod}, bound, 300000, setup, body, func(v vrt.Verdict, prefix []int) {
-				cs.Schedule = prefix
-				switch {
-				case v.Panic != nil:
-					c.Violate("concurrent operations do not panic", "panic", "panic:"+opClass(names[0])+"||"+opClass(names[1]), cs, "outputs", fmt.Sprint(v.Panic))
-				case v.Deadlock || v.Exhausted:
-					c.Violate("concurrent operations terminate", "deadlock", "deadlock:"+opClass(names[0])+"||"+opClass(names[1]), cs, "outputs", fmt.Sprint(v.Deadlock, v.Exhausted))
-				default:
+				setup := func() { vrt.Run(vrt.Options{FixedSched: true}, func() { w, _ = c09Build() }) }
+				checkOut := func(v vrt.Verdict, prefix []int) {
+					cs.Schedule = prefix
+					if v.Panic != nil || v.Deadlock || v.Exhausted {
+						c.Violate("concurrent operations return", "panic", "panic:"+opClass(names[0])+"||"+opClass(names[1]), cs, "outputs", fmt.Sprint(v.Panic, v.Deadlock, v.Exhausted))
+						return
+					}
 					for t, k := range idx {
 						if outs[t] != solo[k] {
 							c.Violate("each concurrent operation produces exactly the bytes it produces alone", "mismatch", "concurrent-output:"+opClass(ops[k].name)+" with "+opClass(names[(t+1)%len(names)]), cs, clip(solo[k]), clip(outs[t]))
 						}
 					}
 				}
-			})
-			if os.Getenv("VERIF_DEBUG") != "" {
-				fmt.Fprintf(os.Stderr, "%s scenario %v: %d schedules, %d points\n", time.Now().Format("15:04:05.000"), names, st.Execs, st.MaxPoints)
-			}
-			c.Count("schedules", st.Execs)
-			c.Max("max_schedule_points", int64(st.MaxPoints))
-			c.Max("threads", int64(nThreads))
-			if st.Capped {
-				c.Cap("schedule exploration capped at 300000 for " + strings.Join(names, " || "))
-			}
-			c.Observe(strings.Join(names, " || "), "ok")
-			c.Nontrivial()
-			if c.Index()%7 == 0 {
-				c.Sample(map[string]any{"threads": names, "schedules": st.Execs, "preemption_bound": bound, "yield_every_nth_point": mod, "scheduling_points": st.MaxPoints})
+				if pass == 1 {
+					st1 := exploreSharded(vrt.Options{Fuel: 50000000, YieldTick: true, YieldMod: 4}, 1, 300000, setup, body, checkOut, shard, nshards)
+					c.Count("schedules", st1.Execs)
+					c.Max("max_schedule_points", int64(st1.MaxPoints))
+					c.Max("threads", int64(nThreads))
+					if st1.Capped {
+						c.Cap("schedule exploration (bound 1) capped at 300000 for " + strings.Join(names, " || "))
+					}
+					if owner {
+						c.Observe(strings.Join(names, " || ")+" bound 1", "ok")
+						c.Nontrivial()
+					}
+					continue
+				}
+				st := exploreSharded(vrt.Options{Fuel: 50000000, YieldTick: true, YieldMod: mod}, bound, 300000, setup, body, func(v vrt.Verdict, prefix []int) {
+					cs.Schedule = prefix
+					switch {
+					case v.Panic != nil:
+						c.Violate("concurrent operations do not panic", "panic", "panic:"+opClass(names[0])+"||"+opClass(names[1]), cs, "outputs", fmt.Sprint(v.Panic))
+					case v.Deadlock || v.Exhausted:
+						c.Violate("concurrent operations terminate", "deadlock", "deadlock:"+opClass(names[0])+"||"+opClass(names[1]), cs, "outputs", fmt.Sprint(v.Deadlock, v.Exhausted))
+					default:
+						for t, k := range idx {
+							if outs[t] != solo[k] {
+								c.Violate("each concurrent operation produces exactly the bytes it produces alone", "mismatch", "concurrent-output:"+opClass(ops[k].name)+" with "+opClass(names[(t+1)%len(names)]), cs, clip(solo[k]), clip(outs[t]))
+							}
+						}
+					}
+				}, shard, nshards)
+				if os.Getenv("VERIF_DEBUG") != "" {
+					fmt.Fprintf(os.Stderr, "%s scenario %v: %d schedules, %d points\n", time.Now().Format("15:04:05.000"), names, st.Execs, st.MaxPoints)
+				}
+				c.Count("schedules", st.Execs)
+				c.Max("max_schedule_points", int64(st.MaxPoints))
+				c.Max("threads", int64(nThreads))
+				if st.Capped {
+					c.Cap("schedule exploration capped at 300000 for " + strings.Join(names, " || "))
+				}
+				if owner {
+					c.ObserveLocal(strings.Join(names, " || ")+" bound 2", "ok")
+					c.Nontrivial()
+				}
+				if owner && c.Index()%7 == 0 {
+					c.Sample(map[string]any{"threads": names, "schedules": st.Execs, "preemption_bound": bound, "yield_every_nth_point": mod, "scheduling_points": st.MaxPoints})
+				}
 			}
 		}
 	}
 }
 
 func digestDiffC09(w *c09world) string {
+	// render the dirty state first: building the fresh world resets the package-level variables.
+	a := sharedRoots(w)
+	as := make([]string, len(a))
+	for i := range a {
+		if _, ok := a[i].(string); !ok {
+			as[i] = deepString(a[i])
+		}
+	}
 	var fresh *c09world
 	vrt.Run(vrt.Options{FixedSched: true}, func() { fresh, _ = c09Build() })
 	if fresh == nil {
 		return "?"
 	}
-	a, b := sharedRoots(w), sharedRoots(fresh)
+	b := sharedRoots(fresh)
 	labels := []string{"compiled registry", "caller data", "injected data", "message bundle"}
 	for i := range a {
 		if s, ok := a[i].(string); ok {
 			labels = append(labels, s, s)
 			continue
 		}
-		if deepString(a[i]) != deepString(b[i]) {
+		if as[i] != deepString(b[i]) {
 			if i < len(labels) {
 				return labels[i] + " differs"
 			}
